@@ -35,13 +35,13 @@ type KnownFile struct {
 }
 
 type RunConfig struct {
-	Solver     string
-	TimeoutMs  int
-	Known      map[string]KnownFinding
-	Verbose    bool
-	Deadline   time.Time
-	SolverLog  string
-	InitStd    []string
+	Solver    string
+	TimeoutMs int
+	Known     map[string]KnownFinding
+	Verbose   bool
+	Deadline  time.Time
+	SolverLog string
+	InitStd   []string
 }
 
 func NewEngine(l *Loaded, eo EntryOpts, rc RunConfig) (*Engine, error) {
@@ -349,6 +349,7 @@ func main() {
 	noReplay := fs.Bool("no-replay", false, "do not replay counterexamples natively")
 	initStd := fs.String("init-std", "errors,unicode/utf8", "std packages whose initialisers are executed")
 	seed := fs.Int64("seed", 0, "seed (recorded; exploration is deterministic)")
+	conformance := fs.Int("conformance", 0, "random concrete runs per entry executed both in the engine and natively (traces must agree)")
 	stripImports := fs.String("strip-imports", "", "blank imports dropped from the analysed copy (comma-separated)")
 	fs.Parse(os.Args[2:])
 
@@ -456,6 +457,21 @@ func main() {
 	// report
 	exit := 0
 	replays := 0
+	confOK, confBad := 0, 0
+	if *conformance > 0 && *outDir != "" {
+		for _, r := range results {
+			if len(r.Violations) > 0 || len(r.Inconclusive) > 0 || r.Opts.NoConformance {
+				continue
+			}
+			ok, bad, msgs := runConformance(l, r.Opts, rc, lc, *conformance, *seed, *outDir, *rtNative, splitList(*nativeExtra))
+			confOK += ok
+			confBad += bad
+			for _, m := range msgs {
+				r.Inconclusive = append(r.Inconclusive, m)
+			}
+		}
+		replays += confOK
+	}
 	var violLines []string
 	for _, r := range results {
 		for _, k := range r.KnownHits {
@@ -523,6 +539,65 @@ func main() {
 		fmt.Printf("OK property=%s tier=%s entries=%d paths=%d wall=%.1fs\n", *property, *tier, len(results), total, time.Since(start).Seconds())
 	}
 	os.Exit(exit)
+}
+
+// runConformance: k random concrete runs of one entry, in the engine and natively; their
+// assertion/observation traces must be identical.
+func runConformance(l *Loaded, eo EntryOpts, rc RunConfig, lc LoadConfig, k int, seed int64, outDir, rtNative string, nativeExtra []string) (ok, bad int, msgs []string) {
+	e, err := NewEngine(l, eo, rc)
+	if err != nil {
+		return 0, 1, []string{"conformance: " + err.Error()}
+	}
+	defer e.solver.Close()
+	var runs []ConfRun
+	func() {
+		defer func() {
+			if r := recover(); r != nil {
+				msgs = append(msgs, fmt.Sprintf("conformance: engine error in concrete mode: %v", r))
+			}
+		}()
+		runs = e.RunConformance(k, seed+1)
+	}()
+	for i, run := range runs {
+		if run.Result != "ok" {
+			bad++
+			msgs = append(msgs, fmt.Sprintf("conformance run %d of %s: engine outcome %s", i, eo.Name, run.Result))
+			continue
+		}
+		dir := filepath.Join(outDir, eo.Property, fmt.Sprintf("conf-%s-%d", eo.Name, i))
+		os.RemoveAll(dir)
+		os.MkdirAll(dir, 0o755)
+		v := &Violation{Entry: eo.Name, Property: eo.Property, Label: "conformance", Kind: "conformance", Inputs: run.Inputs, Sched: run.Sched, Multi: run.Multi}
+		writeCounterexample(dir, v, &entryResult{Opts: eo}, lc, rtNative, nativeExtra, l)
+		nat, nerr := nativeTrace(dir, lc)
+		if nerr != "" {
+			bad++
+			msgs = append(msgs, fmt.Sprintf("conformance run %d of %s: native run failed: %s (dir %s)", i, eo.Name, nerr, dir))
+			continue
+		}
+		if strings.Join(nat, "\n") != strings.Join(run.Trace, "\n") {
+			bad++
+			msgs = append(msgs, fmt.Sprintf("conformance mismatch in %s run %d (dir %s): engine trace %d items, native %d items; first difference at %d", eo.Name, i, dir, len(run.Trace), len(nat), firstDiff(run.Trace, nat)))
+			os.WriteFile(filepath.Join(dir, "engine-trace.txt"), []byte(strings.Join(run.Trace, "\n")), 0o644)
+			os.WriteFile(filepath.Join(dir, "native-trace.txt"), []byte(strings.Join(nat, "\n")), 0o644)
+			continue
+		}
+		ok++
+		os.RemoveAll(dir)
+	}
+	return
+}
+
+func firstDiff(a, b []string) int {
+	for i := 0; i < len(a) && i < len(b); i++ {
+		if a[i] != b[i] {
+			return i
+		}
+	}
+	if len(a) < len(b) {
+		return len(a)
+	}
+	return len(b)
 }
 
 func writeEvidence(path, property, tier string, seed int64, l *Loaded, results []*entryResult, loadS, wallS float64, replays, nviol int, rc RunConfig) error {
